@@ -34,7 +34,8 @@ def run(c):
     binary = c.go_build(HARNESS)
     if binary:
         gen(c, binary)
-    c.prove("SH.Props.C24", extra_files=["SH/Model/PCache.lean", "SH/Gen/C24.lean"])
+    c.prove("SH.Props.C24", extra_files=["SH/Model/PCache.lean", "SH/Gen/C24.lean", "SH/Lemmas/PCacheBase.lean",
+                                     "SH/Lemmas/PCacheExact.lean", "SH/Lemmas/PCacheEvict.lean", "SH/Lemmas/PCacheInt64.lean"])
     drv = c.driver(DRIVER)
     if binary and drv:
         # thorough: 5 runs of 4000 histories with seeds derived from VERIF_SEED (bounds the size of one output stream)
@@ -61,27 +62,35 @@ META = {
     "technique": ("Lean 4 theorems over an executable model of pcache.go (induction over all histories of lookup/store/invalidate "
                   "critical sections with clocks as inputs) + step-by-step differential correspondence with the real pointsCache"),
     "text": ("Kernel-checked theorems for EVERY history of loadCached / store / invalidate critical sections (all keys, ranges, "
-             "clock readings, eviction choices, gc deletions, utcOffsets): the hour/minute/second recursion of "
-             "checkInvalidationMapLocked never misses an invalidated second of [from,to] (checkLevels_sound, for any positive "
-             "steps ending in 1); the coarse maps dominate the per-second map on every bucket not older than the gc edge and the "
-             "per-second map remembers the latest clock of every invalidation not older than it (run_good, an invariant of "
-             "updateTimeLocked/invalidateLocked); hence a result is served from the cache only if its load-start reading is later "
-             "than tAt+linger for every invalidation (sec,tAt) in range and inside the mutable window (served_fresh), otherwise the "
-             "lookup answers stale and get reloads (invalidated_is_reloaded); a range that ended before the window is served as "
-             "stored (immutable_served); rows and load time are stored together by one store section for exactly that key and range "
-             "(served_rows_stored_by_load); the accounted size never exceeds approxMaxSize+1+largest load and dominates the real "
-             "content (cache_within_bound, cache_content_bounded). The model is tied to pcache.go by replaying each generated history "
-             "section by section on the real pointsCache and on the compiled Lean model and diffing hits/misses, every touched entry "
-             "(lru, rowsSize, ranges with loadedAt/n/generation), size, map sizes and a final full dump of cache and level maps. A "
-             "direct oracle on the real code replays all invalidations naively per second and flags stale-served, "
-             "served-not-latest-load, immutable-reloaded, size-bound."),
+             "clock readings, eviction choices, gc deletions, utcOffsets). (1) Two-sided freshness (stale_iff / served_iff): a cached "
+             "range is reported stale, hence reloaded, IF AND ONLY IF it does not end before the mutable window and some second of "
+             "the scanned range [max(from, edge second), to] was invalidated in this history at a clock tAt with loadedAt <= tAt + "
+             "linger; otherwise it is served as stored. Soundness rests on checkLevels_sound + run_good (coarse maps dominate the "
+             "second map; the second map remembers every invalidation not older than the gc edge), completeness on "
+             "checkLevels_exact + run_tight (a coarse key is consulted only when its whole bucket lies inside the range and every "
+             "coarse entry is witnessed by a second of its bucket; every second-map entry is an invalidation of the history): the "
+             "hierarchy never over-invalidates, not even by coarse-bucket rounding. served_fresh, invalidated_is_reloaded, "
+             "immutable_served, served_rows_stored_by_load as before. (2) gc_never_changes_answers: whatever invalidateLocked "
+             "deletes, no later lookup (clock not behind the gc call) changes its answer. (3) Size: exact accounting in every "
+             "reachable state (run_exact: c.size = sum of rowsSize+len(rows)), the `k == \"\"` corner is unreachable for "
+             "approxMaxSize > 0 (needEvict_nonempty, evictLoop_no_hang), the eviction loop terminates within len(cache) rounds under "
+             "ANY legal choice sequence (evictLoop_terminates, legal_pick_exists), hence size_bounded has no loop hypothesis; "
+             "cache_within_bound / cache_content_bounded bound accounted size and real content for every history. (4) "
+             "int64_preconditions / size_in_int64: for clocks in [0,2^62] ns, seconds within +-2^40, utcOffset within +-2^31 every "
+             "int64 / time.Time operation of pcache.go is overflow-free and equals the model's Int arithmetic (lod.go mathDiv with "
+             "truncating division = floor; time.Unix(sec,0).Before(T) = nanosecond comparison). The model is tied to pcache.go by "
+             "replaying each generated history section by section on the real pointsCache and on the compiled Lean model and "
+             "diffing hits/misses, every touched entry (lru, rowsSize, ranges with loadedAt/n/generation), size, map sizes and a "
+             "final full dump. A direct oracle on the real code replays all invalidations naively per second and flags "
+             "stale-served, needless-reload (the converse), served-not-latest-load, immutable-reloaded, size-bound, size-accounting."),
     "note": ("Trusted: Lean kernel; the model<->code correspondence on generated histories (quick 1500, thorough 5 x 4000 cases); "
              "sync.RWMutex/atomic semantics (one critical section = one model step); Go map order treated as an input whose "
-             "legality the model checks. Clock hypothesis of served_fresh: the lookup's clock is not behind the clock of an "
-             "earlier invalidate call (gc forgets seconds older than its own edge); clock_hypothesis_needed shows by decide that "
-             "the code serves stale rows when a wall clock steps back by hours - inherent to the design, not reported as a defect. "
-             "Not proved: that the eviction loop terminates (needs exact accounting size = sum of entry costs; the model flags "
-             "`hang`, never observed; it can only happen with approxMaxSize <= 0); completeness of the check (stale only if really "
-             "invalidated) is covered by the correspondence only; int64 overflow not modelled."),
+             "legality the model checks (theorems about safety hold for illegal choices too). Clock hypothesis of stale_iff / "
+             "served_fresh: the lookup's clock is not behind the clock of an earlier invalidate call; clock_hypothesis_needed and "
+             "the gc example show by decide that the code serves stale rows when a wall clock steps back by hours - inherent to "
+             "the design, not reported as a defect. The scanned range includes the second that contains the edge even when the "
+             "edge has a sub-second part (clampFrom), stated exactly in stale_iff. approxMaxSize <= 0 makes get spin forever "
+             "(model: EvictFlag.hang, decide example) - configuration corner outside the property. The int64 statement is a "
+             "precondition lemma about each arithmetic expression, not a second bit-precise model of the whole cache."),
     "design_ref": "DESIGN.md §6 C24",
 }
